@@ -16,6 +16,27 @@ HERE = os.path.dirname(os.path.abspath(__file__))
 FROZEN = os.path.join(HERE, "zlibng_ref.json")
 
 
+# id -> (C file, regex over whitespace-normalised text): tuning conditions that decide which bytes are emitted
+HEURISTICS_C = {
+    "slow:filtered-short-match": ("deflate_slow.c", r"match_len <= 5 && \(s->strategy == Z_FILTERED\)"),
+    "slow:lazy-prev-better": ("deflate_slow.c", r"s->prev_length >= STD_MIN_MATCH && match_len <= s->prev_length"),
+    "slow:lazy-limit": ("deflate_slow.c", r"s->prev_length < s->max_lazy_match"),
+    "slow:long-chain-matcher": ("deflate_slow.c", r"s->max_chain_length <= 1024"),
+    "fast:min-match": ("deflate_fast.c", r"match_len >= WANT_MIN_MATCH"),
+    "fast:insert-limit": ("deflate_fast.c", r"match_len <= s->max_insert_length && s->lookahead >= WANT_MIN_MATCH"),
+    "quick:min-match": ("deflate_quick.c", r"match_len >= WANT_MIN_MATCH"),
+    "quick:pending-room": ("deflate_quick.c", r"s->pending \+ \(\(BIT_BUF_SIZE \+ 7\) >> 3\) >= s->pending_buf_size"),
+    "rle:lookahead": ("deflate_rle.c", r"s->lookahead <= STD_MAX_MATCH"),
+    "rle:min-match": ("deflate_rle.c", r"match_len >= STD_MIN_MATCH"),
+    "medium:insert-limit": ("deflate_medium.c", r"match.match_length <= 16 \* s->max_insert_length && s->lookahead >= WANT_MIN_MATCH"),
+    "medium:fizzle-256": ("deflate_medium.c", r"n.match_length >= 256"),
+    "medium:lookahead-next": ("deflate_medium.c", r"s->lookahead > MIN_LOOKAHEAD"),
+    "match:good-match-quarter": ("match_tpl.h", r"best_len >= s->good_match\) chain_length >>= 2"),
+    "match:nice-match": ("match_tpl.h", r"best_len >= nice_match"),
+    "match:early-exit": ("match_tpl.h", r"early_exit = s->level < EARLY_EXIT_TRIGGER_LEVEL"),
+}
+
+
 def registry_dir():
     c = glob.glob(os.path.expanduser("~/.cargo/registry/src/*/libz-sys-1.1.29/src/zlib-ng"))
     return c[0] if c else None
@@ -192,6 +213,16 @@ def extract(d):
         for m in re.findall(r"0x([0-9a-fA-F]{8})\b", _strip_comments(raw)):
             fc.add(int(m, 16))
     ref["x86_fold_constants"] = sorted(fc)
+    # heuristic conditions of the compress functions (presence of the C condition text)
+    heur = {}
+    for hid, (f, rx) in HEURISTICS_C.items():
+        try:
+            txt = _strip_comments(_read(d, f))
+            ref["files"][f] = hashlib.sha256(_read(d, f).encode()).hexdigest()
+            heur[hid] = bool(re.search(rx, re.sub(r"\s+", " ", txt)))
+        except OSError:
+            heur[hid] = False
+    ref["heuristics"] = heur
     # crc tables
     try:
         cb = src("crc32_braid_tbl.h")
